@@ -11,6 +11,9 @@ Definition linv (s : state) : Prop :=
 Lemma linv_init cap : linv (init cap).
 Proof. split; [apply inv_new|]. intros t id H. discriminate. Qed.
 
+Lemma linv_init_cold cap pubs : linv (init_cold cap pubs).
+Proof. split; [apply inv_new|]. intros t id H. discriminate. Qed.
+
 Lemma holds_cons s t id t' id' c p cr :
   holds (mkSt c ((t', id') :: st_hand s) p cr) t id = true ->
   (t' = t /\ id' = id) \/ holds s t id = true.
@@ -62,15 +65,15 @@ Ltac eqbs :=
          end.
 
 (* any two enabled steps of different threads that conflict hold a common lock *)
-Theorem lockset_discipline : forall cap evs s,
-  run (init cap) evs = Some s ->
+Theorem lockset_discipline : forall cap pubs evs s,
+  run (init_cold cap pubs) evs = Some s ->
   forall t1 a1 t2 a2, t1 <> t2 ->
     enabled s t1 a1 = true -> enabled s t2 a2 = true ->
     conflict (footprint s a1) (footprint s a2) = true ->
     common_lock (footprint s a1) (footprint s a2) = true.
 Proof.
-  intros cap evs s Hrun t1 a1 t2 a2 Hne H1 H2 Hc.
-  pose proof (linv_run evs _ _ (linv_init cap) Hrun) as [_ Hh].
+  intros cap pubs evs s Hrun t1 a1 t2 a2 Hne H1 H2 Hc.
+  pose proof (linv_run evs _ _ (linv_init_cold cap pubs) Hrun) as [_ Hh].
   revert Hc.
   destruct a1, a2; cbn [footprint conflict common_lock mem_loc existsb loc_eqb lock_eqb snd fst orb andb];
     try (intros; reflexivity); try (intros; discriminate).
@@ -82,4 +85,15 @@ Proof.
     try (destruct (creator_of _ _); try discriminate;
          repeat match goal with H : (_ =? _) = true |- _ => apply Z.eqb_eq in H end; congruence);
     try congruence.
+Qed.
+
+(* every step that touches the location of a lock-guarded field holds that lock,
+   except the single-flight creator's initialisation of a log nobody else can reach *)
+Theorem guard_locks_held : forall g l x k s a,
+  guard_loc g l = Some (x, k) -> touches s a x = true -> holds_lock s a k = true \/ is_init a = true.
+Proof.
+  intros g l x k s a Hg. destruct g; cbn in Hg; try discriminate; injection Hg as <- <-;
+    unfold touches, holds_lock, is_init; destruct a;
+    cbn [footprint mem_loc existsb loc_eqb lock_eqb snd fst orb andb];
+    eqbs; intros; subst; rewrite ?Z.eqb_refl; cbn; auto; try discriminate; try congruence.
 Qed.
